@@ -1,0 +1,75 @@
+//go:build verif
+
+// Verification contracts for partition assignment in the consumer-group coordinator (pkg/broker/coordinator.go);
+// comment-only, read by /verif/govc. Shared definitions (groupOK, coordOK, current, ...) are in
+// zz_verif_contracts_c13.go.
+
+package broker
+
+// member m subscribes to topic t
+//@ spec func subscribes(m *memberState, t string) bool = exists i int :: 0 <= i && i < len(m.topics) && m.topics[i] == t
+
+//@ func memberSubscribes
+//@   opaque_strings
+//@   nullable member
+//@   ensures [C12.subscribes_def] result == (member != nil && subscribes(member, topic))
+//@   loop 1 invariant member != nil && -1 <= rangeidx(1) && rangeidx(1) < len(member.topics) && (forall j int :: 0 <= j && j <= rangeidx(1) ==> member.topics[j] != topic)
+
+// assignPartitions: a new map with one entry per current member (nil for a member that gets nothing); every topic
+// named in a member's entry is a topic that member subscribes to; nothing that existed before is modified.
+// (How partitions are spread over the eligible members is described by the call-site clauses on the inner loop.)
+//@ func (c *GroupCoordinator) assignPartitions
+//@   opaque_strings
+//@   merge_branches
+//@   sort_forward_only
+//@   requires coordOK(c) && groupOK(state)
+//@   ensures [C12.assignment_map_is_new] result != nil && fresh(result)
+//@   ensures [C12.every_member_has_an_entry] forall k string :: has(result, k) == (old(len(state.members)) != 0 && has(state.members, k))
+//@   ensures [C12.only_subscribed_topics] forall k string, i int :: has(result, k) && 0 <= i && i < len(mapval(result, k)) ==> subscribes(mapval(state.members, k), mapval(result, k)[i].Name)
+//@   ensures [C12.assign_changes_no_group] keepsField("groupState", "*") && keepsField("memberState", "*") && keepsMap("string", "*memberState") && keepsMap("string", "[]assignmentTopic") && keepsMem("string") && keepsMem("assignmentTopic")
+//@   at mapupdate#2 before assert [C12.partition_goes_to_a_subscribed_member] has(state.members, memberID) && subscribes(mapval(state.members, memberID), topic) && key == topic
+//@   loop 1 invariant result != nil && fresh(result) && -1 <= rangeidx(1) && rangeidx(1) < len(memberIDs)
+//@   loop 1 invariant forall m string :: has(result, m) ==> mapval(result, m) != nil && has(state.members, m) && (forall t string :: !has(mapval(result, m), t))
+//@   loop 1 invariant forall i int :: 0 <= i && i <= rangeidx(1) ==> has(result, memberIDs[i])
+//@   loop 1 invariant forall m string :: has(result, m) ==> allocated(mapval(result, m))
+//@   loop 1 invariant forall m1 string, m2 string :: has(result, m1) && has(result, m2) && m1 != m2 ==> mapval(result, m1) != mapval(result, m2)
+//@   loop 2 invariant result != nil && fresh(result) && keepsMem("string") && fresh(memberIDs)
+//@   loop 2 invariant forall m string :: has(result, m) ==> mapval(result, m) != nil && has(state.members, m)
+//@   loop 2 invariant forall m string, t string :: has(result, m) && has(mapval(result, m), t) ==> subscribes(mapval(state.members, m), t)
+//@   loop 2 invariant forall k string :: has(state.members, k) ==> has(result, k)
+//@   loop 2 invariant forall i int :: 0 <= i && i < len(memberIDs) ==> has(state.members, memberIDs[i])
+//@   loop 3 invariant result != nil && fresh(result) && keepsMem("string") && fresh(memberIDs) && fresh(eligible) && base(eligible) != base(memberIDs) && -1 <= rangeidx(3) && rangeidx(3) < len(memberIDs)
+//@   loop 3 invariant forall i int :: 0 <= i && i < len(memberIDs) ==> has(state.members, memberIDs[i])
+//@   loop 3 invariant forall q int :: 0 <= q && q < len(eligible) ==> has(state.members, eligible[q]) && subscribes(mapval(state.members, eligible[q]), topic)
+//@   loop 4 invariant result != nil && fresh(result) && len(eligible) > 0 && -1 <= rangeidx(4) && rangeidx(4) < len(partitions)
+//@   loop 4 invariant forall m string :: has(result, m) ==> mapval(result, m) != nil && has(state.members, m)
+//@   loop 4 invariant forall m string, t string :: has(result, m) && has(mapval(result, m), t) ==> subscribes(mapval(state.members, m), t)
+//@   loop 5 invariant result != nil && fresh(result) && assignments != nil && fresh(assignments) && keepsMem("string") && keepsMem("assignmentTopic") && keepsMap("string", "[]assignmentTopic")
+//@   loop 5 invariant forall m string :: has(result, m) ==> mapval(result, m) != nil && has(state.members, m)
+//@   loop 5 invariant forall m string, t string :: has(result, m) && has(mapval(result, m), t) ==> subscribes(mapval(state.members, m), t)
+//@   loop 5 invariant forall k string :: has(state.members, k) ==> has(result, k)
+//@   loop 5 invariant forall m string :: has(assignments, m) == seen(5, m)
+//@   loop 5 invariant forall m string :: has(assignments, m) ==> has(result, m) && allocated(mapval(assignments, m))
+//@   loop 5 invariant forall m string, i int :: has(assignments, m) && 0 <= i && i < len(mapval(assignments, m)) ==> has(mapval(result, m), mapval(assignments, m)[i].Name)
+//@   loop 6 invariant result != nil && fresh(result) && assignments != nil && fresh(assignments) && keepsMem("string") && keepsMem("assignmentTopic") && keepsMap("string", "[]assignmentTopic") && fresh(names)
+//@   loop 6 invariant forall m string :: has(result, m) ==> mapval(result, m) != nil && has(state.members, m)
+//@   loop 6 invariant forall m string, t string :: has(result, m) && has(mapval(result, m), t) ==> subscribes(mapval(state.members, m), t)
+//@   loop 6 invariant forall k string :: has(state.members, k) ==> has(result, k)
+//@   loop 6 invariant forall m string :: has(assignments, m) == (seen(5, m) && m != memberID)
+//@   loop 6 invariant has(result, memberID) && topics == mapval(result, memberID) && !has(assignments, memberID)
+//@   loop 6 invariant forall i int :: 0 <= i && i < len(names) ==> has(topics, names[i])
+//@   loop 6 invariant forall m string :: has(assignments, m) ==> has(result, m) && allocated(mapval(assignments, m))
+//@   loop 6 invariant forall m string, i int :: has(assignments, m) && 0 <= i && i < len(mapval(assignments, m)) ==> has(mapval(result, m), mapval(assignments, m)[i].Name)
+//@   loop 7 invariant result != nil && fresh(result) && assignments != nil && fresh(assignments) && keepsMem("string") && keepsMem("assignmentTopic") && keepsMap("string", "[]assignmentTopic") && fresh(names) && fresh(memberAssignments)
+//@   loop 7 invariant forall m string :: has(result, m) ==> mapval(result, m) != nil && has(state.members, m)
+//@   loop 7 invariant forall m string, t string :: has(result, m) && has(mapval(result, m), t) ==> subscribes(mapval(state.members, m), t)
+//@   loop 7 invariant forall k string :: has(state.members, k) ==> has(result, k)
+//@   loop 7 invariant forall m string :: has(assignments, m) == (seen(5, m) && m != memberID)
+//@   loop 7 invariant has(result, memberID) && topics == mapval(result, memberID) && !has(assignments, memberID) && -1 <= rangeidx(7) && rangeidx(7) < len(names)
+//@   loop 7 invariant forall i int :: 0 <= i && i < len(names) ==> has(topics, names[i])
+//@   loop 7 invariant forall i int :: 0 <= i && i < len(memberAssignments) ==> has(topics, memberAssignments[i].Name)
+//@   loop 7 invariant forall m string :: has(assignments, m) ==> has(result, m) && allocated(mapval(assignments, m)) && base(mapval(assignments, m)) != base(memberAssignments)
+//@   loop 7 invariant forall m string, i int :: has(assignments, m) && 0 <= i && i < len(mapval(assignments, m)) ==> has(mapval(result, m), mapval(assignments, m)[i].Name)
+
+//@ func (c *GroupCoordinator) collectTopicPartitions
+//@   modular
